@@ -1,6 +1,8 @@
 package checks
 
 import (
+	"fmt"
+	"strconv"
 	"strings"
 
 	"kvqlverif/drive"
@@ -40,6 +42,7 @@ func (c01) Assumptions() []string {
 
 func (c01) Gates(tier string, m map[string]int64) []rt.Gate {
 	return []rt.Gate{
+		rt.GateMin("stores of integers beyond 2^53 / near the int64 limits", m, "bigint_store", 300),
 		rt.GateMin("scan kind empty chosen", m, "scan:empty", 1),
 		rt.GateMin("scan kind mget chosen", m, "scan:mget", 1),
 		rt.GateMin("scan kind prefix chosen", m, "scan:prefix", 1),
@@ -66,6 +69,19 @@ func c01Gen(c *rt.Ctx) c01Case {
 	r := c.R
 	fam := c01Families[r.Intn(len(c01Families))]
 	st := gen.NewStore(r, fam)
+	if r.Chance(1, 12) {
+		// integers that need more than 53 bits, and the ends of the int64 range: int(value)
+		// must read them exactly
+		base := []int64{9007199254740992, 9223372036854775800, -9007199254740992, 4611686018427387904}[r.Intn(4)]
+		n := r.Range(3, 12)
+		var ps []refstore.Pair
+		for i := 0; i < n; i++ {
+			ps = append(ps, refstore.Pair{K: fmt.Sprintf("k%02d", i), V: fmt.Sprint(base + int64((i*5)%8) - 3)})
+		}
+		ps = append(ps, refstore.Pair{K: "k98", V: "12"}, refstore.Pair{K: "k99", V: "-7"})
+		st = &gen.Store{Family: gen.FNum, Pairs: ps}
+		c.Rec.Inc("bigint_store")
+	}
 	g := &gen.PredGen{R: r, KeyLits: st.KeyLiterals(r), IntVals: st.ValuesInt(), FltVals: st.ValuesFloat(), Avoid: c.Avoid, FloatEq: !c.Avoid["float-equality"]}
 	vals := map[string]bool{}
 	for _, p := range st.Pairs {
@@ -83,6 +99,16 @@ func c01Gen(c *rt.Ctx) c01Case {
 		depth = 4
 	}
 	pred := g.Bool(depth)
+	if len(st.Pairs) > 0 && strings.HasPrefix(st.Pairs[0].K, "k0") && len(st.Pairs[0].V) > 15 {
+		// big-integer store: make sure the exact value of int(value) decides
+		lit, _ := strconv.ParseInt(st.Pairs[r.Intn(len(st.Pairs)-2)].V, 10, 64)
+		cmp := gen.Bin([]string{"=", "!=", ">", "<", ">=", "<="}[r.Intn(6)], gen.Call("int", gen.Value()), gen.Int(lit))
+		if r.Bool() {
+			pred = gen.And(cmp, pred)
+		} else {
+			pred = gen.Or(pred, cmp)
+		}
+	}
 	style := gen.Style{Paren: []int{0, 1, 3}[r.Intn(3)], R: r.Fork(), Case: r.Chance(1, 3)}
 	return c01Case{store: st, pred: pred, query: "select * where " + style.Print(pred)}
 }
